@@ -85,6 +85,9 @@ func specLib(e *Engine, env *Env, name string, n *ast.CallExpr) (tv, bool) {
 		return tv{validPath(argT(0)), nil}, true
 	case "pjoin":
 		return tv{pjoin(argT(0), argT(1)), str}, true
+	case "pathJoin":
+		a, b := argT(0), argT(1)
+		return tv{Ite(And(validPath(a), validPath(b)), pjoin(a, b), App("pathJoin2", StringS, a, b)), str}, true
 	case "under":
 		return tv{under(argT(0), argT(1)), nil}, true
 	case "trimPrefix":
